@@ -34,6 +34,29 @@ def ambiguous(rule):
     return walk(rule['cond'])
 
 
+def big_integer_constant(x):
+    """the rule text holds a YAML integer above i64::MAX (role of a known finding)"""
+    if isinstance(x, tuple) and len(x) == 2 and x[0] == 'i' and isinstance(x[1], int) and not isinstance(x[1], bool):
+        return x[1] > (1 << 63) - 1
+    if isinstance(x, dict):
+        return any(big_integer_constant(v) for v in x.values())
+    if isinstance(x, (list, tuple)):
+        return any(big_integer_constant(v) for v in x)
+    return False
+
+
+def floatify(x):
+    if isinstance(x, tuple) and len(x) == 2 and x[0] == 'i' and isinstance(x[1], int) and not isinstance(x[1], bool) and x[1] > (1 << 63) - 1:
+        return ('f', float(x[1]))
+    if isinstance(x, dict):
+        return {k: floatify(v) for k, v in x.items()}
+    if isinstance(x, list):
+        return [floatify(v) for v in x]
+    if isinstance(x, tuple):
+        return tuple(floatify(v) for v in x)
+    return x
+
+
 def several_batches(rule, r):
     """a quantified key list whose members the loader split into more than one
     batch, at least one batch holding several members"""
@@ -219,6 +242,8 @@ def run_unit(ck, unit):
         key = 'language:' + name.split('/')[0]
         if several_batches(rule, r):
             key = 'quantifier:list-split-into-several-batches'
+        if big_integer_constant(rule):
+            key = 'constant:integer-above-i64-max-read-as-float'
         kf = ck.known_match(key)
         if kf:
             excused.append(key)
@@ -232,8 +257,12 @@ def run_unit(ck, unit):
         # the recorded finding must not hide anything else in this obligation: wherever the engine leaves the reference
         # it has to be on the *batched* reading of the quantifier (the recorded defect, as a semantics) instead
         orc_b = O.Oracle(tr.uni, tr.doc)
-        orc_b.batched = True
-        want_b = orc_b.rule(rule)
+        if excused[0] == 'constant:integer-above-i64-max-read-as-float':
+            # the recorded defect as a semantics: such a constant is the double nearest to it
+            want_b = orc_b.rule(floatify(rule))
+        else:
+            orc_b.batched = True
+            want_b = orc_b.rule(rule)
 
         def on_sat_b(model):
             docj = tr.render_doc(model)
